@@ -340,16 +340,17 @@ Fixpoint lex_fuel (c : tcfg) (fuel : nat) (s : string) : result (list token) :=
       match s with
       | EmptyString => Ok []
       | String ch r =>
-          let other :=
+          (* [other] and the default of [number] are thunks: vm_compute is call by value *)
+          let other := fun _ : unit =>
             match (if existsb (Ascii.eqb ch) other1 then Some (TOp (String ch EmptyString), r)
                    else lex_other ((if fx_ops c then ["~"] else []) ++ other_rest) s) with
             | Some (t, rest) => ts <- lex_fuel c fuel' rest ;; Ok (t :: ts)
             | None => Diag 1
             end in
-          let number (sg rest : string) (dflt : result (list token)) :=
+          let number (sg rest : string) (dflt : unit -> result (list token)) :=
             match lex_number c sg rest with
             | Some (t, rest') => ts <- lex_fuel c fuel' rest' ;; Ok (t :: ts)
-            | None => dflt
+            | None => dflt tt
             end in
           if Ascii.eqb ch "-" then
             match (if fx_float c then strip_prefix "inf" r else None) with
@@ -368,7 +369,7 @@ Fixpoint lex_fuel (c : tcfg) (fuel : nat) (s : string) : result (list token) :=
           else if is_alpha ch then
             let '(w, r2) := span is_idchar s in ts <- lex_fuel c fuel' r2 ;; Ok (TId w :: ts)
           else if is_space ch then lex_fuel c fuel' r
-          else other
+          else other tt
       end
   end.
 Definition lex (c : tcfg) (s : string) : result (list token) := lex_fuel c (S (String.length s)) s.
